@@ -2,7 +2,7 @@
 # Generates the test credentials the TLS harnesses need under /verif/build/creds (offline, /usr/bin/python3 + cryptography).
 # bin/gencert.py is a copy of /repo/test/tools/gencert.py (BSD-3-Clause, Ericsson AB).
 set -e
-D=/verif/build/creds
+D=${VERIF_BUILD:-/verif/build}/creds
 [ -f $D/.done ] && exit 0
 mkdir -p $D
 cat <<YAML | /usr/bin/python3 /verif/bin/gencert.py
